@@ -53,6 +53,14 @@ func shutdown(en *tl.Engine) {
 				}
 			}
 		}
+		// a task that ended its goroutine (runtime.Goexit) earlier; Wait() begun while a later task still runs
+		for _, c := range [][2]int{{2, 0}, {2, 1}, {3, 1}, {4, 2}} {
+			for k := 1; k < c[0]; k++ {
+				for lane := 0; lane < c[0]; lane++ {
+					en.GoexitShutdown(c[0], c[1], k, lane)
+				}
+			}
+		}
 		en.TimeoutRaces(1, 1, 1)
 		en.TimeoutRaces(2, 1, 1)
 		en.RequireTimeoutRace()
